@@ -141,6 +141,10 @@ func runC08(c *core.Ctx) {
 
 	// 1. Set every cell with a unique value (x + 1000*y + 1); whole grid re-read after each Set on small shapes
 	order := r.Perm(w * h)
+	stride := 17
+	if w*h > 20000 {
+		stride = w * h / 40 // a whole-grid read costs w*h Gets: about 40 of them on the biggest shapes
+	}
 	for k, idx := range order {
 		x, y := idx%w, idx/w
 		v := 1000*y + x + 1
@@ -151,7 +155,7 @@ func runC08(c *core.Ctx) {
 		}
 		g.m[y][x] = v
 		c.Count("set_in_bounds", 1)
-		if small || k%17 == 0 || k == len(order)-1 {
+		if small || k%stride == 0 || k == len(order)-1 {
 			if !same("Set", a, g) {
 				return
 			}
@@ -207,6 +211,9 @@ func runC08(c *core.Ctx) {
 	for y := 0; y < h; y++ {
 		if !small && r.Chance(1, 2) {
 			continue
+		}
+		if w*h > 20000 && y != 0 && y != h-1 && !r.Chance(12, h) {
+			continue // the biggest shapes: the first, the last and about a dozen other rows (every row costs several whole-grid reads)
 		}
 		hist = append(hist, fmt.Sprintf("Row(%d)", y))
 		var row []int
